@@ -80,7 +80,34 @@ def route_owner(m, prog):
     return {"kraus": "C06", "povm": "C09", "measure": "C05", "trace_out": "C02", "resize": "C10", "struct": "C02"}.get(k, "*")
 
 
+def mzi_programs():
+    """Mach-Zehnder sweep (C11): 50/50 splitter, phase phi on one arm, 50/50 splitter, one photon in;
+    detection probabilities sin^2(phi/2) (mode a) and cos^2(phi/2) (mode b) for the library's
+    convention U = exp(i eta (a^dag b + a b^dag))"""
+    import math
+    progs = []
+    for k, phi in enumerate([0.0, 0.4, math.pi / 2, 2.1, math.pi, 4.0, 5.5, 2 * math.pi, -1.3, 7.9]):
+        for variant in range(3):
+            steps = [{"kind": "op", "gate": "BS", "targets": [0, 2], "entry": "ce", "h": 0, "params": {"eta": math.pi / 4}}]
+            if variant == 1:
+                steps = [{"kind": "struct", "what": "set_contraction", "on": False}] + steps + [{"kind": "struct", "what": "expand", "entry": "ce", "h": 0, "targets": [0]}]
+            arm = 0 if variant != 2 else 2
+            steps.append({"kind": "op", "gate": "PhaseShift", "targets": [arm], "entry": ["state", "ce", "env"][k % 3], "h": 0, "params": {"phi": phi}})
+            steps.append({"kind": "op", "gate": "BS", "targets": [0, 2], "entry": "ce", "h": 0, "params": {"eta": math.pi / 4}})
+            s2, c2 = math.sin(phi / 2) ** 2, math.cos(phi / 2) ** 2
+            steps.append({"kind": "probe", "targets": [0], "expect": [c2, s2], "note": f"MZI phi={phi:.3f} mode a"})
+            steps.append({"kind": "probe", "targets": [2], "expect": [s2, c2], "note": f"MZI phi={phi:.3f} mode b"})
+            progs.append({"seed": 5, "contraction": True, "focus": "C11", "setup": {"envs": [{"fock": 1, "pol": "H"}, {"fock": 0, "pol": "H"}], "customs": [], "composites": [["e0", "e1"]]}, "steps": steps})
+    return progs
+
+
 def load_corpus(prop):
+    if prop == "C11":
+        return mzi_programs() + _load_corpus_files(prop)
+    return _load_corpus_files(prop)
+
+
+def _load_corpus_files(prop):
     out = []
     for f in sorted(glob.glob(os.path.join(VERIF, "corpus", prop, "*.json"))):
         try:
